@@ -122,8 +122,8 @@ Record diagram := { d_shapes : list shape; d_conns : list conn }.
 Definition half_stroke (sw : Z) : Z := (sw + 1) / 2.       (* int(math.Ceil(float64(sw)/2)) *)
 Definition off3d (s : shape) : Z := if s_hex s then THREE_DEE_OFFSET / 2 else THREE_DEE_OFFSET.
 
-(* the label point BoundingBox uses (half pixels) *)
-Definition bbox_label_tl (s : shape) (pos : N) (lw lh : Z) : Z * Z :=
+(* historical: the label point BoundingBox used before commit ffec08c98 (half pixels) *)
+Definition pinned_label_tl (s : shape) (pos : N) (lw lh : Z) : Z * Z :=
   let '(px, py) := point_on_box pos (s_x s) (s_y s) (s_w s) (s_h s) LABEL_PADDING lw lh in
   if s_3d s then
     (if outside_right pos then px + 2 * off3d s else px,
@@ -168,7 +168,7 @@ Definition st_icon (s : shape) (b : rect) : rect :=
   | None => b
   end.
 (* the label step, for a given way [ltl] of computing the label point (half pixels): the pinned code uses
-   bbox_label_tl, the repaired code of coq/C29/fix.patch uses the point d2svg draws at (fixed_label_tl below) *)
+   pinned_label_tl, the repaired code of coq/C29/fix.patch uses the point d2svg draws at (bbox_label_tl below) *)
 Definition st_label (ltl : shape -> N -> Z -> Z -> Z * Z) (s : shape) (b : rect) : rect :=
   match s_label s with
   | Some (pos, lw, lh) =>
@@ -202,7 +202,7 @@ Definition bbox_gen (ltl : shape -> N -> Z -> Z -> Z * Z) (d : diagram) : rect :
   | [] => (0, 0, 0, 0)
   | _ => fold_left step_conn (d_conns d) (fold_left (step_shape ltl) (d_shapes d) bbox_start)
   end.
-Definition bbox : diagram -> rect := bbox_gen bbox_label_tl.   (* pinned code *)
+Definition bbox_pinned : diagram -> rect := bbox_gen pinned_label_tl.   (* historical: the code before /repo commit ffec08c98 *)
 
 (* ---- what is drawn (integral rectangles that enclose the real extent: floor for min, ceil for max) ---- *)
 
@@ -227,11 +227,11 @@ Definition draw_label_tl (s : shape) (pos : N) (lw lh : Z) : Z * Z :=
     point_on_box pos (s_x s) (s_y s - MULTIPLE_OFFSET) (s_w s + MULTIPLE_OFFSET) (s_h s + MULTIPLE_OFFSET) LABEL_PADDING lw lh
   else point_on_box pos (s_x s) (s_y s) (s_w s) (s_h s) LABEL_PADDING lw lh.
 
-(* the repaired BoundingBox (coq/C29/fix.patch): outside and border labels on the same enlarged box *)
-Definition fixed_label_tl (s : shape) (pos : N) (lw lh : Z) : Z * Z :=
+(* Diagram.BoundingBox since /repo commit ffec08c98: outside and border labels on the same enlarged box as drawShape *)
+Definition bbox_label_tl (s : shape) (pos : N) (lw lh : Z) : Z * Z :=
   if is_outside pos || is_border pos then draw_label_tl s pos lw lh
   else point_on_box pos (s_x s) (s_y s) (s_w s) (s_h s) LABEL_PADDING lw lh.
-Definition bbox_fixed : diagram -> rect := bbox_gen fixed_label_tl.
+Definition bbox : diagram -> rect := bbox_gen bbox_label_tl.
 
 (* the label rectangle of an outside / border label as drawn (inside labels are not part of the property) *)
 Definition label_extents (s : shape) : list rect :=
